@@ -1603,8 +1603,8 @@ class Interp:
                 return Obj("Exception", OrderedDict(args=TupS(args), classes=Const(tuple(classes) if classes else None)))
             v = self.eval(exc, sc)
             return v if isinstance(v, Obj) else None
-        except (ShapeError, _Raise):
-            return None
+        except ShapeError:
+            return None  # (an exception raised while the arguments are evaluated is what the statement raises: it propagates)
 
     def exception_classes(self, exc, sc):
         """names of the class an expression raises, with its bases (builtins by their MRO, repo classes by their base list)"""
